@@ -23,6 +23,7 @@ type Task struct {
 	Panic   interface{}
 	wake    chan struct{}
 	SkipOne string // a Point with this label is passed without parking, once (see Go)
+	Stuck   bool   // a step of this task did not come back in time (it is blocked inside the code under test)
 }
 
 // Sched owns the tasks of one test case.
@@ -86,13 +87,23 @@ func (s *Sched) Step(id int, patience time.Duration) (ran bool, err error) {
 		return false, nil
 	}
 	t := s.Tasks[id]
+	if t.Stuck {
+		// it did not come back from an earlier step: it is not parked at a point, nothing can wake it
+		return false, ErrStuck
+	}
 	mu.Lock()
 	s.cur = t
 	mu.Unlock()
-	t.wake <- struct{}{}
+	select {
+	case t.wake <- struct{}{}:
+	case <-time.After(patience):
+		t.Stuck = true
+		return true, ErrStuck
+	}
 	select {
 	case <-s.parked:
 	case <-time.After(patience):
+		t.Stuck = true
 		return true, ErrStuck
 	}
 	mu.Lock()
